@@ -59,6 +59,9 @@ def linked_outcomes(pkg, base):
     return out
 
 
+_CALLS = [0]
+
+
 def run_impl(docx_bytes, opts, path=None):
     """opts: dict(style_map, include_default_style_map, include_embedded_style_map, ignore_empty_paragraphs, id_prefix, conv)"""
     def call(fn, **kw):
@@ -75,8 +78,12 @@ def run_impl(docx_bytes, opts, path=None):
     kw = {}
     if opts.get("style_map") is not None:
         kw["style_map"] = opts["style_map"]
+    # an option left out means its documented default: every other call leaves out the options that have their default value
+    _CALLS[0] += 1
     for k in ("include_default_style_map", "include_embedded_style_map", "ignore_empty_paragraphs", "id_prefix"):
         if k in opts and opts[k] is not None:
+            if _CALLS[0] % 2 == 1 and k != "id_prefix" and opts[k] is True:
+                continue
             kw[k] = opts[k]
     if conv is not None:
         kw["convert_image"] = conv
